@@ -8,8 +8,10 @@
 // Statistical oracles (rule 5): n = 20 000 draws per test; Kolmogorov-Smirnov against the library's OWN cumulative
 // function under the documented convention, reject iff sqrt(n)*D > 3.6 (asymptotic level 2*exp(-2*3.6^2) = 1.1e-11);
 // sample mean within 8 sigma/sqrt(n); chi-square goodness of fit at 1e-9 (upper tail from Boost gamma_q; cells with
-// expectation < 25 pooled; cells of probability 0 must be empty, exactly).  Budget: <= 2000 tests per run; the quick tier
-// runs about 360 (see the per-law counts), the thorough tier 5x that.
+// expectation < 25 pooled; cells of probability 0 must be empty, exactly).  Budget: <= 2000 tests per run at <= 1e-9 each, i.e.
+// a false-alarm probability <= 2e-6 per run; the quick tier runs 398 tests (144 KS + mean on the RandomTools samplers, 48 + 36
+// KS on randC / randC on a restricted domain, 48 + 32 + 78 + 12 chi-square), i.e. <= 4.0e-7 per quick run (1.7e-7 when the
+// KS tests are counted at their own level 1.1e-11), the thorough tier 5x that: 1990 tests, <= 2.0e-6.
 #include <boost/math/special_functions/beta.hpp>
 #include <boost/math/special_functions/gamma.hpp>
 
@@ -58,12 +60,25 @@ const char* K_GAMOFF = "C18-gamma-randc-offset";
 const char* K_CUMSUM = "C18-pickfromcumsum-empty";
 const char* K_RCONT = "C18-rcont2-start-cast";
 const char* K_HMMEQ = "C18-hmm-sample-stale-equilibrium";
+const char* K_GAUSSDOM = "C18-gaussian-randc-ignores-domain";
 
 // parameter grid 0.1..20 of the quantifier; 1 is the neutral value of every convention (mean = rate, variance = sd,
 // rate = scale): cases at 1 are trivial by the non-trivial rule.
 const double GRID[] = {1, 0.1, 0.2, 0.5, 2, 5, 10, 20};
 double gridv(vf::Ctx& c) { return GRID[c.below(8)]; }
 uint32_t genSeed(vf::Ctx& c) { return static_cast<uint32_t>(c.raw() & 0xffffffffu); }
+// Seeds of the reproducibility law.  setSeed takes std::mt19937::result_type (uint_fast32_t: 64 bits here, reduced modulo 2^32 by
+// mt19937::seed), and "with a fixed seed the stream is reproducible" holds for every value of that type: one case in three
+// takes a boundary value of the 32-bit and of the argument type's range (0 first: the simplest case), the others a random
+// 32-bit value or, one in eight, a random value of the full argument type.
+typedef std::mt19937::result_type SeedT;
+SeedT genSeedAny(vf::Ctx& c) {
+  static const uint64_t B[] = {0ull, 1ull, 2ull, 0x7fffffffull, 0x80000000ull, 0x80000001ull, 0xfffffffeull, 0xffffffffull, 0x100000000ull, 0x100000001ull,
+                               0x7fffffffffffffffull, 0x8000000000000000ull, 0xffffffff00000000ull, 0xffffffffffffffffull, 5489ull /* mt19937 default */};
+  uint64_t k = c.below(24);
+  uint64_t v = k < 8 ? B[c.below(sizeof B / sizeof B[0])] : k < 11 ? c.raw() : (c.raw() & 0xffffffffull);
+  return static_cast<SeedT>(v);   // (a 32-bit SeedT would fold the large values: still boundary values of that type)
+}
 
 // ------------------------------------------------------------------ statistics
 // Kolmogorov-Smirnov statistic sqrt(n) D.  The samplers return doubles, i.e. reals rounded to the nearest double: a sample
@@ -247,12 +262,16 @@ vector<vector<double>> genStoch(vf::Ctx& c, size_t K) {
 // ------------------------------------------------------------------ distributions (C09 families with a draw)
 struct Dist {
   unique_ptr<DiscreteDistributionInterface> d; string text; const char* knownC = nullptr;  // finding hit by randC() for these parameters
-  bool hasC = true; bool nontrivial = false; bool constant = false;
+  bool hasC = true; bool nontrivial = false; bool constant = false; int family = 0;
   bool representable = true;  // false: more than 1e-4 of the law's mass lies between the last double of the (open) domain and its bound
 };
-Dist genDist(vf::Ctx& c) {
+// family weights: Gamma, Gamma with offset, Beta, Gaussian, Exponential, TruncExponential, Uniform, Constant, Simple
+const vector<unsigned> FAM_ALL = {3, 2, 3, 3, 3, 2, 2, 1, 2};
+Dist genDist(vf::Ctx& c, const vector<unsigned>& famWeights = FAM_ALL) {
   Dist r; ostringstream o; size_t K = static_cast<size_t>(c.irange(2, 10));
-  switch (c.weighted({3, 2, 3, 3, 3, 2, 2, 1, 2})) {
+  { unsigned tot = 0; for (unsigned x : famWeights) tot += x;   // same draw as Ctx::weighted
+    uint64_t u = c.below(tot); r.family = 0; for (unsigned x : famWeights) { if (u < x) break; u -= x; ++r.family; } }
+  switch (r.family) {
     case 0: { double a = gridv(c), b = gridv(c); o << "Gamma(" << K << ",alpha=" << a << ",beta=" << b << ")"; r.d.reset(new GammaDiscreteDistribution(K, a, b)); if (b != 1) { r.knownC = K_GAMMA; r.nontrivial = true; } break; }
     case 1: {
       double a = gridv(c), b = gridv(c), off = c.pick({0.5, -2.0, 3.0}); o << "Gamma(" << K << ",alpha=" << a << ",beta=" << b << ",offset=" << off << ")";
@@ -310,7 +329,7 @@ string showOp(const Op& o) {
   s << "]"; return s.str();
 }
 // runs the script after setSeed(seed); only valid inputs, no exception expected
-vector<uint64_t> runScript(vf::Ctx& c, const vector<Op>& ops, uint32_t seed) {
+vector<uint64_t> runScript(vf::Ctx& c, const vector<Op>& ops, SeedT seed) {
   vector<uint64_t> t; RT::setSeed(seed);
   for (const Op& o : ops) {
     vector<int> v(o.n); for (size_t i = 0; i < o.n; ++i) v[i] = 100 + static_cast<int>(i);
@@ -356,8 +375,9 @@ vector<uint64_t> runScript(vf::Ctx& c, const vector<Op>& ops, uint32_t seed) {
 }  // namespace
 
 LAW(R1_reproducible, RC, 6000, 120000, 420, "script of >= 5 calls with >= 2 continuous draws (sequences under different seeds are then compared)") {
-  uint32_t seed = genSeed(c), other = seed + 1 + static_cast<uint32_t>(c.below(1000));
-  if (c.oneIn(4)) other = seed ^ (1u << c.below(32));
+  // the other seed differs from the first one modulo 2^32 (mt19937::seed reduces its argument: seeds 2^32 apart name the same stream)
+  SeedT seed = genSeedAny(c), other = seed + 1 + static_cast<SeedT>(c.below(1000));
+  if (c.oneIn(4)) other = seed ^ (static_cast<SeedT>(1) << c.below(32));
   int nops = c.irange(1, 16); vector<Op> ops; int ncont = 0;
   c.desc << "seed " << seed << " other seed " << other << " script:";
   for (int k = 0; k < nops; ++k) { ops.push_back(genOp(c)); c.desc << " " << showOp(ops.back()); if (continuousKind(ops.back().kind)) ++ncont; }
@@ -449,6 +469,50 @@ LAW(D_randC, RC, 48, 240, 24, "convention-sensitive parameter != 1, an offset, o
   double Flo = D.d->pProb(lo), Fhi = D.d->pProb(hi);
   CHECK(Fhi > Flo, "internal: domain without mass");
   CHECK_KS(c, xs, [&](double x) { return x <= lo ? 0. : x >= hi ? 1. : (D.d->pProb(x) - Flo) / (Fhi - Flo); }, D.text << ".randC() vs its own pProb renormalised to the domain [" << lo << "," << hi << "]");
+}
+
+// Option combinations: the same families after restrictToConstraint has narrowed the domain.  randC() then re-draws until the value
+// lies in the domain, so the draws follow the family's law (offset, truncation included) conditioned on the domain: the object's
+// own pProb renormalised to the domain it reports.  The Gamma family with an offset is weighted up (offset x restriction).
+namespace {
+struct Restr { double x1 = 0, x2 = 0; bool in1 = false, in2 = false; string text; };
+// a sub-interval of the current domain: both ends, the lower end only (forced when the truncation point of a TruncExponential
+// must stay inside), the upper end only.  The end points are quantiles of the object's own law at levels from a small pool
+// (input generation only: the share of the mass that is left is measured afterwards on the restricted object).
+bool genRestr(vf::Ctx& c, const DiscreteDistributionInterface& d, bool lowerOnly, Restr& r) {
+  double lo = d.getLowerBound(), hi = d.getUpperBound(), uLo = d.pProb(lo), uHi = d.pProb(hi);
+  int mode = lowerOnly ? 1 : static_cast<int>(c.weighted({3, 2, 2}));
+  double t1 = 0, t2 = 1;
+  if (mode == 0) { t1 = c.pick({0.25, 0.1, 0.4, 0.55}); t2 = t1 + c.pick({0.3, 0.2, 0.4}); }
+  else if (mode == 1) t1 = c.pick({0.5, 0.3, 0.7, 0.85});
+  else t2 = c.pick({0.5, 0.7, 0.3, 0.15});
+  r.in1 = c.flag(); r.in2 = c.flag();
+  r.x1 = mode == 2 ? (lo > -1e22 ? lo - 1 - std::abs(lo) / 2 : -INFINITY) : d.qProb(uLo + t1 * (uHi - uLo));
+  r.x2 = mode == 1 ? (hi < 1e22 ? hi + 1 + std::abs(hi) / 2 : INFINITY) : d.qProb(uLo + t2 * (uHi - uLo));
+  r.text = string(r.in1 ? "[" : "]") + vf::dec(r.x1) + ";" + vf::dec(r.x2) + (r.in2 ? "]" : "[");
+  return r.x1 < r.x2 && std::max(r.x1, lo) < std::min(r.x2, hi);
+}
+}  // namespace
+
+LAW(D_randC_restricted, RC, 36, 180, 32, "the restricted domain holds at most 90% of the mass: first draws are rejected and re-drawn") {
+  static const vector<unsigned> FAM = {2, 6, 2, 2, 2, 2, 1, 0, 0};   // no Constant (one point), no Simple (no continuous version)
+  uint32_t seed = genSeed(c); Dist D = genDist(c, FAM);
+  Restr r; bool ok = genRestr(c, *D.d, D.family == 5, r);
+  c.desc << D.text << " restrictToConstraint(" << r.text << ").randC() seed " << seed;
+  if (!ok) { c.label("no_proper_subinterval"); return; }
+  if (D.knownC) c.excludeIfKnown(D.knownC);
+  if (D.family == 3) c.excludeIfKnown(K_GAUSSDOM);   // GaussianDiscreteDistribution::randC has no rejection loop: it ignores the restricted domain
+  double mass0 = D.d->pProb(D.d->getUpperBound()) - D.d->pProb(D.d->getLowerBound());
+  D.d->restrictToConstraint(IntervalConstraint(r.x1, r.x2, r.in1, r.in2));
+  double lo = D.d->getLowerBound(), hi = D.d->getUpperBound(), Flo = D.d->pProb(lo), Fhi = D.d->pProb(hi), share = (Fhi - Flo) / mass0;
+  c.desc << " (domain [" << vf::dec(lo) << ";" << vf::dec(hi) << "], " << share << " of the mass)";
+  if (!(share >= 0.05)) { c.label("restricted_domain_almost_without_mass"); return; }   // cost of the rejection loop; not reached by the quantile levels above
+  c.nt(share <= 0.9);
+  RT::setSeed(seed);
+  vector<double> xs(NDRAW);
+  for (auto& x : xs) { x = D.d->randC(); CHECK(x >= lo && x <= hi, D.text << " restricted to " << r.text << ": randC() = " << vf::dec(x) << " outside the domain [" << vf::dec(lo) << ";" << vf::dec(hi) << "]"); }
+  if (!D.representable && hi > 0.999) { c.label("law_not_representable_in_double_no_KS"); return; }
+  CHECK_KS(c, xs, [&](double x) { return x <= lo ? 0. : x >= hi ? 1. : (D.d->pProb(x) - Flo) / (Fhi - Flo); }, D.text << " restricted to " << r.text << ": randC() vs its own pProb renormalised to the domain [" << vf::dec(lo) << ";" << vf::dec(hi) << "]");
 }
 
 LAW(D_rand, RC, 48, 240, 24, "at least 3 classes") {
